@@ -10,6 +10,7 @@ fuzz_target!(|data: &[u8]| {
         lsv_core::history::assert_layout();
         lsv_core::shadow::install();
         lsv_core::outcome::silence_panics();
+        let _ = lsv_core::statics::pool();
     });
     let h = lsv_core::generate::bytes::decode_history(data, 48);
     let res = lsv_core::history::run_history(&h);
